@@ -174,7 +174,20 @@ def write_evidence(path, pid, tier, seed, cov, assumptions, wall, violations, le
           'assumptions': assumptions, 'wall_s': round(wall, 2), 'violations': violations}
     if inconclusive:
         ev['coverage'].setdefault('evaluations', 0)
-    json.dump(ev, open(path, 'w'), indent=1, default=str)
+    ev = json.loads(json.dumps(ev, default=str))
+    # the evidence must validate against the schema (a copy is kept next to the checker)
+    try:
+        import jsonschema
+        sp = os.path.join(ROOT, 'tools', 'EVIDENCE.schema.json')
+        if os.path.exists(sp):
+            jsonschema.validate(ev, json.load(open(sp)))
+    except Exception as ex:      # never lose the run over its report: say so and keep the valid core
+        print(f"WARNING: evidence did not validate against the schema: {str(ex)[:300]}")
+        cov = ev['coverage']
+        ev['coverage'] = {k: cov[k] for k in ('evaluations', 'distinct_nontrivial', 'rule', 'samples', 'states', 'transitions',
+                                               'traces_validated_against_impl', 'explanation', 'exhaustive') if k in cov}
+        ev['coverage']['note'] = 'full coverage record dropped: it did not validate against the schema'
+    json.dump(ev, open(path, 'w'), indent=1)
 
 
 if __name__ == '__main__':
